@@ -139,7 +139,7 @@ pub fn some_len(r: &mut Rng, max: usize) -> usize {
             return n;
         }
     }
-    match r.below(12) {
+    match r.below(14) {
         10 | 11 => {
             // exact multiples of the structural periods (and +-1)
             let b = *r.pick(&[256usize, 512, 2048, 4096, 8192]);
@@ -150,6 +150,20 @@ pub fn some_len(r: &mut Rng, max: usize) -> usize {
         0 => r.range(1, 3) as usize,
         1..=3 => r.range(1, max.min(300) as u64) as usize,
         4..=7 => boundary_len(r, max),
+        8 | 9 => {
+            // stratified by the position of the end *inside* a superblock: which block of the superblock the
+            // sequence ends in (first and last block favoured) and where in that block
+            let (b, per) = *r.pick(&[(256usize, 8usize), (512, 8), (64, 8), (512, 64), (32, 32)]);
+            let sb = b * per;
+            let k = r.range(0, (max / sb).min(40) as u64) as usize;
+            let j = match r.below(4) {
+                0 | 1 => per - 1,
+                2 => 0,
+                _ => r.below(per as u64) as usize,
+            };
+            let off = *r.pick(&[0usize, 1, b / 2, b - 2, b - 1]);
+            (sb * k + b * j + off).max(1).min(max.max(1))
+        }
         _ => r.range(1, max as u64) as usize,
     }
 }
